@@ -2,6 +2,12 @@ mod tables;
 
 pub use tables::CLDR_VERSION;
 
+#[cfg(unic_locale_verif)]
+#[doc(hidden)]
+pub mod verif_tables {
+    pub use super::tables::*;
+}
+
 use crate::subtags;
 
 unsafe fn lang_from_parts(
